@@ -40,6 +40,15 @@ type monC08 struct {
 	Markers [2][][]byte // texts given to Send, in order
 	Queued  [2][]int    // indices of markers still queued for encryption
 	NWalks  int
+	// every buffer of the conversation in which a live D-H exponent has been seen (aliases, kept when the
+	// conversation lets go of them): once the exponent is dead they must have been zeroed in place
+	Holders [2][]c08Holder `verif:"nohash"`
+}
+
+type c08Holder struct {
+	Ix   int
+	Buf  []byte
+	Path string // where in the conversation the copy was first seen
 }
 
 func (l *c08Life) kill(ixs []int) {
@@ -158,7 +167,7 @@ type c08Hit struct {
 }
 
 // c08Walk searches the conversation's object graph (buffers to full capacity, big.Int words) for needles
-func c08Walk(c *Conversation, needles map[string][]byte) map[string]string {
+func c08Walk(c *Conversation, needles map[string][]byte, live map[int][]byte, seen func(ix int, b []byte, path string)) map[string]string {
 	found := map[string]string{}
 	verifVisit(c, &verifVisitor{
 		skip: func(t reflect.Type, field string) bool {
@@ -166,6 +175,11 @@ func c08Walk(c *Conversation, needles map[string][]byte) map[string]string {
 			return field == "ourKeys" || field == "ourCurrentKey" || field == "Rand" || strings.HasSuffix(field, "Handler")
 		},
 		onBytes: func(path string, b []byte) {
+			for ix, n := range live {
+				if len(n) > 0 && bytes.Contains(b, n) {
+					seen(ix, b, path)
+				}
+			}
 			for name, n := range needles {
 				if _, ok := found[name]; !ok && len(n) > 0 && bytes.Contains(b, n) {
 					found[name] = path
@@ -211,7 +225,21 @@ func c08Check(w *verifWorld, i int) (fs []verifFinding) {
 		}
 	}
 	m.NWalks++
-	for name, path := range c08Walk(p.C, needles) {
+	live := map[int][]byte{}
+	for _, s := range l.Secrets {
+		if s.Alive && s.Kind == "dh" {
+			live[s.Ix] = c08Strip(p.R.Log[s.Ix].Out)
+		}
+	}
+	note := func(ix int, b []byte, path string) {
+		for _, h := range m.Holders[i] {
+			if h.Ix == ix && len(h.Buf) > 0 && len(b) > 0 && &h.Buf[0] == &b[0] {
+				return
+			}
+		}
+		m.Holders[i] = append(m.Holders[i], c08Holder{ix, b, strings.ReplaceAll(path, "[]", "")})
+	}
+	for name, path := range c08Walk(p.C, needles, live, note) {
 		kind := name[:strings.Index(name, "#")]
 		path = strings.ReplaceAll(path, "[]", "")
 		if kind == "text" {
@@ -230,6 +258,12 @@ func c08Check(w *verifWorld, i int) (fs []verifFinding) {
 		d := p.R.Log[s.Ix]
 		if bytes.Equal(d.Dst, d.Out) {
 			fs = append(fs, verifFinding{"C08:dead-secret-not-erased:" + s.Kind, fmt.Sprintf("%s: the buffer that received retired secret %s#%d still holds it (reference dropped without zeroing)", p.Name, s.Kind, s.Ix)})
+		}
+		for _, h := range m.Holders[i] {
+			if h.Ix == s.Ix && bytes.Contains(h.Buf, c08Strip(d.Out)) {
+				fs = append(fs, verifFinding{"C08:dead-secret-not-erased:" + s.Kind + "-copy:" + h.Path, fmt.Sprintf("%s: the buffer at %s, which held a copy of retired secret %s#%d, still holds it (let go or kept without being zeroed)", p.Name, h.Path, s.Kind, s.Ix)})
+				break
+			}
 		}
 	}
 	return
@@ -393,7 +427,7 @@ func init() {
 		Level: "model_checking",
 		Build: verifC08Sys,
 		Run: func(r *verifReport) {
-			r.Rule = "explicit-state exploration of session histories from an established session (texts both ways with rotation, End on either side, refresh by query, one SMP run with answer or abort, all FIFO delivery interleavings, within an event budget U); after EVERY API call the log of the deterministic randomness source is classified (DH exponents, exchange secret r, SMP exponents) and a reference lifetime model driven by observable progress (messages emitted, security and SMP events) says which draws are dead; a reflective walk of the whole conversation (all buffers to full capacity, big.Int words) must not contain any dead secret nor any text given to Send other than the most recent / still queued ones, and the buffer that received a dead DH exponent or exchange secret must have been zeroed"
+			r.Rule = "explicit-state exploration of session histories from an established session (texts both ways with rotation, End on either side, refresh by query, one SMP run with answer or abort, all FIFO delivery interleavings, within an event budget U); after EVERY API call the log of the deterministic randomness source is classified (DH exponents, exchange secret r, SMP exponents) and a reference lifetime model driven by observable progress (messages emitted, security and SMP events) says which draws are dead; a reflective walk of the whole conversation (all buffers to full capacity, big.Int words) must not contain any dead secret nor any text given to Send other than the most recent / still queued ones, and the buffer that received a dead DH exponent, and every buffer of the conversation in which a copy of it was ever seen (aliases are kept), must have been zeroed in place"
 			r.Assumptions = []string{"copies made by the Go runtime or inside crypto/dsa are out of reach (SECURITY_ASSUMPTIONS.md says the same)", "draws are classified by length and by the call they were made in; draws that cannot be classified are never reported"}
 			ids := []string{"v3//U3", "v2//U3", "v3/r/U3"}
 			if r.Tier == "thorough" {
